@@ -323,6 +323,14 @@ impl rustc_driver::Callbacks for Cb {
             if !first { doc.push(','); } first = false;
             let _ = write!(doc, "{{\"path\":{},\"kind\":{},\"t\":{},\"v\":{}}}", js(&tcx.def_path_str(did)), js(&format!("{:?}", kind)), js(&t.to_string()), val);
         }
+        doc.push_str("],\"mods\":[");
+        let mut first = true;
+        for id in tcx.hir_free_items() {
+            let did = id.owner_id.to_def_id();
+            if !matches!(tcx.def_kind(did), DefKind::Mod) { continue; }
+            if !first { doc.push(','); } first = false;
+            doc.push_str(&js(&tcx.def_path_str(did)));
+        }
         doc.push_str("]}");
         std::fs::write(&out, doc).expect("write facts");
         Compilation::Continue
